@@ -349,3 +349,182 @@ Theorem cut_stream : forall c fs cut t s bufs fuel,
   let d := drive fuel bufs (new_reader s (c_state c) false (c_check_utf8 c) (c_max c) (c_ext c) CbReadAll) in
   cut_monitor c true fs (N.of_nat cut) (match t with TFail => true | TEOF => false end) (dr_events d) (dr_err d) = true.
 Proof. intros c fs cut t s bufs fuel Hc Hfs _. apply cut_stream_any; assumption. Qed.
+
+(* ================================================================== 3. reading, discarding or half-reading each message *)
+(* ------------------------------------------------------------------ Discard does not look at the frame flag or the UTF-8 state *)
+Definition with_fix (r : reader) (fr : bool) (st : N) : reader :=
+  mkR (r_src r) (r_state r) (r_skip r) (r_check_utf8 r) (r_max r) (r_ext r) (r_compressed r) (r_cb r)
+      (r_opcode r) fr (r_rawN r) (r_masked r) (r_key r) (r_cpos r) (r_u8wrap r) st (r_u8acc r) (r_log r).
+
+Ltac fsimpl := cbn [with_fix r_src r_state r_skip r_check_utf8 r_max r_ext r_compressed r_cb r_opcode r_frame
+  r_rawN r_masked r_key r_cpos r_u8wrap r_u8state r_u8acc r_log set_src reset reset_fragment fst snd] in *.
+
+Lemma with_fix_id r : with_fix r (r_frame r) (r_u8state r) = r.
+Proof. destruct r; reflexivity. Qed.
+Lemma with_fix_twice r a b a' b' : with_fix (with_fix r a b) a' b' = with_fix r a' b'.
+Proof. reflexivity. Qed.
+Lemma reset_fix r fr st : reset (with_fix r fr st) = reset r.
+Proof. reflexivity. Qed.
+
+Lemma raw_drain_fix r fr st :
+  raw_drain (with_fix r fr st) = (fst (raw_drain r), with_fix (snd (raw_drain r)) fr st).
+Proof.
+  unfold raw_drain. fsimpl. destruct (read_full (r_rawN r) (r_src r)) as [[b e] s'].
+  destruct e as [[| |]|]; reflexivity.
+Qed.
+
+Lemma next_frame_fix r fr st : exists fr',
+  next_frame (with_fix r fr st) = (fst (next_frame r), with_fix (snd (next_frame r)) fr' st).
+Proof.
+  unfold next_frame, cb_read_all, raw_drain. fsimpl.
+  destruct (reader_read_header (r_src r)) as [[e|hdr] s1].
+  { exists fr. reflexivity. }
+  destruct (if r_skip r then None else check_header hdr (r_state r)); [exists fr; reflexivity|].
+  destruct ((0 <? r_max r)%Z && (r_max r <? h_len hdr)%Z); [exists fr; reflexivity|].
+  destruct (if r_ext r then unset_bits hdr (r_compressed r) else Some (hdr, r_compressed r)) as [[hdr' comp']|];
+    [|exists fr; reflexivity].
+  destruct (st_fragmented (r_state r) && op_is_control (h_op hdr')); [|exists true; reflexivity].
+  destruct (r_cb r); fsimpl.
+  - destruct (read_full (Z.to_N (h_len hdr)) s1) as [[b e] s2]. destruct e as [[| |]|]; exists fr; reflexivity.
+  - destruct (read_full (Z.to_N (h_len hdr)) s1) as [[b e] s2]. destruct e as [[| |]|]; try (exists fr; reflexivity).
+    fsimpl. destruct (read_full (Z.to_N (h_len hdr) - len b) s2) as [[b2 e2] s3].
+    destruct e2 as [[| |]|]; exists fr; reflexivity.
+Qed.
+
+Lemma discard_fix : forall fuel r fr st,
+  fst (discard fuel (with_fix r fr st)) = fst (discard fuel r) /\
+  (fst (discard fuel r) <> Some ROutOfFuel ->
+   snd (discard fuel (with_fix r fr st)) = snd (discard fuel r)).
+Proof.
+  induction fuel as [|fuel IH]; intros r fr st.
+  - cbn [discard fst snd]. split; [reflexivity|]. intros H. exfalso. apply H. reflexivity.
+  - cbn [discard]. rewrite raw_drain_fix. destruct (raw_drain r) as [e r1]. cbn [fst snd].
+    destruct e as [e|].
+    { cbn [fst snd]. rewrite reset_fix. split; reflexivity. }
+    change (r_state (with_fix r1 fr st)) with (r_state r1).
+    destruct (negb (st_fragmented (r_state r1))).
+    { cbn [fst snd]. rewrite reset_fix. split; reflexivity. }
+    destruct (next_frame_fix r1 fr st) as [fr' E]. rewrite E.
+    destruct (next_frame r1) as [[h e2] r2]. cbn [fst snd].
+    destruct e2 as [e2|].
+    { cbn [fst snd]. rewrite reset_fix. split; reflexivity. }
+    apply IH.
+Qed.
+
+(* ------------------------------------------------------------------ one Read, with the log made explicit *)
+(* [read_step] of ReaderProofs.v, saying which events the step appended to the
+   log: intermediate control events only, the same on the spec's side *)
+Definition all_inter (l : list event) : Prop := Forall (fun e => ev_inter e = true) l.
+
+Lemma read_stepS c st lg rest r kk : wf_cfg c -> minv c st lg rest r -> 0 < kk ->
+  (exists d r' st' mid rest', reader_read kk r = ((d, None), r') /\ minv c st' (lg ++ mid) rest' r' /\
+      mdeliv st' = mdeliv st ++ d /\ m_op (mmsg st') = m_op (mmsg st) /\ m_comp (mmsg st') = m_comp (mmsg st) /\
+      (mu r' < mu r)%nat /\ all_inter mid /\
+      forall k evs, exists k', mspec c k st evs rest = mspec c k' st' (evs ++ mid) rest') \/
+  (exists d r' rest', reader_read kk r = ((d, Some (RIo EEOF)), r') /\ Bnd c None lg rest' r' /\
+      (r_compressed r' = m_comp (mmsg st) \/ spec_control (m_op (mmsg st)) = true) /\
+      (length (flat (r_src r')) <= length (flat (r_src r)))%nat /\
+      forall k evs, exists k', mspec c k st evs rest =
+        spec_run c k' None (evs ++ [mkEv (m_op (mmsg st)) (mdeliv st ++ d) false (m_comp (mmsg st))]) rest') \/
+  (exists d err r', reader_read kk r = ((d, Some err), r') /\ err <> RIo EEOF /\
+      forall k evs, sr_out (mspec c k st evs rest) <> OClean).
+Proof.
+  intros Hc Hinv Hk. destruct st as [m f pre post|m]; cbn [minv mspec mdeliv mmsg] in *.
+  - (* inside a frame *)
+    rewrite reader_read_eq, (m_frame _ _ _ _ _ _ _ _ Hinv).
+    pose proof (m_pay _ _ _ _ _ _ _ _ Hinv) as Hpay.
+    destruct (rgo_step c m f pre post lg rest r kk Hc Hinv Hk)
+      as [(d & post' & r' & Hr & Hdp & HM & Hmu)|[(r' & Hr & HB & Hmu & Hsp)|[(r' & Hr & HB & Hcp & Hle & Hsp)|(d & r' & Hr & Hlg & Hsp)]]].
+    + left. exists d, r', (MMid m f (pre ++ d) post'), [], rest. cbn [minv mspec mdeliv mmsg]. rewrite app_nil_r.
+      split; [exact Hr|]. split; [exact HM|]. split; [apply app_assoc|]. split; [reflexivity|]. split; [reflexivity|].
+      split; [exact Hmu|]. split; [constructor|]. intros k evs. exists k. rewrite app_nil_r. reflexivity.
+    + left. exists post, r', (MBet (msg_after m f)), [], rest. cbn [minv mspec mdeliv mmsg]. rewrite app_nil_r.
+      split; [exact Hr|]. split; [exact HB|]. split.
+      { unfold msg_after. cbn [m_acc fst snd]. rewrite Hpay. apply app_assoc. }
+      split; [reflexivity|]. split; [reflexivity|]. split; [exact Hmu|]. split; [constructor|].
+      intros k evs. exists (S k). rewrite app_nil_r. apply Hsp.
+    + right; left. exists post, r', rest. split; [exact Hr|]. split; [exact HB|]. split; [exact Hcp|].
+      split; [exact Hle|]. intros k evs. exists (S k). rewrite Hsp, Hpay, app_assoc. reflexivity.
+    + right; right. exists d, RInvalidUtf8, r'. split; [exact Hr|]. split; [discriminate|].
+      intros k evs. rewrite Hsp. discriminate.
+  - (* between two fragments: the next header first *)
+    pose proof (b_msg _ _ _ _ _ Hinv) as (Hfr & _). cbn [is_some] in *.
+    rewrite reader_read_eq, Hfr, (b_state _ _ _ _ _ Hinv), st_frag_set. cbn [negb is_some].
+    destruct rest as [|f rest].
+    + destruct (next_frame_eof c (Some m) lg r Hinv) as (h & r' & Hnf & Hlg). rewrite Hnf. cbn [is_some].
+      right; right. exists [], (RIo EUnexpected), r'. split; [reflexivity|]. split; [discriminate|].
+      intros k evs. rewrite spec_run_nil. discriminate.
+    + destruct (next_frame_spec c (Some m) lg f rest r Hc Hinv) as (h & e & r1 & Hnf & H). rewrite Hnf.
+      destruct e as [err|].
+      * destruct H as (Hlg & Hsp). right; right. exists [], err, r1. split; [reflexivity|].
+        split.
+        { intros ->. destruct (Hsp 0%nat []) as (out & _ & Hem & _ & Hnc).
+          destruct out; cbn [err_matches] in Hem; try discriminate. apply Hnc; reflexivity. }
+        intros k evs. destruct (Hsp k evs) as (out & -> & _ & _ & Hnc). exact Hnc.
+      * destruct H as (Hlen & [(m0 & Hm0 & Hfr1 & HB & Hsp)|(Hop & HM & Hsp)]).
+        -- (* control frame in between *)
+           rewrite Hfr1. injection Hm0 as <-. left.
+           exists [], r1, (MBet m), [mkEv (sf_op f) (sf_payload f) true (m_comp m)], rest.
+           cbn [minv mspec mdeliv mmsg]. split; [reflexivity|]. split; [exact HB|].
+           split; [symmetry; apply app_nil_r|]. split; [reflexivity|]. split; [reflexivity|]. split.
+           { unfold mu. rewrite Hfr, Hfr1. clear -Hlen. lia. }
+           split; [repeat constructor|].
+           intros k evs. exists (S k). apply Hsp.
+        -- (* next fragment: its first Read happens in the same call *)
+           cbn [msg_of] in *. rewrite (m_frame _ _ _ _ _ _ _ _ HM).
+           pose proof (m_pay _ _ _ _ _ _ _ _ HM) as Hpay. cbn [app] in Hpay.
+           assert (Hmu1: (mu r1 < mu r)%nat).
+           { unfold mu. rewrite Hfr, (m_frame _ _ _ _ _ _ _ _ HM). clear -Hlen. lia. }
+           destruct (rgo_step c m f [] (sf_payload f) lg rest r1 kk Hc HM Hk)
+             as [(d & post' & r' & Hr & Hdp & HM' & Hmu)|[(r' & Hr & HB & Hmu & Hsp')|[(r' & Hr & HB & Hcp & Hle & Hsp')|(d & r' & Hr & Hlg & Hsp')]]].
+           ++ left. exists d, r', (MMid m f ([] ++ d) post'), [], rest. cbn [minv mspec mdeliv mmsg]. rewrite app_nil_r.
+              split; [exact Hr|]. split; [exact HM'|]. split; [reflexivity|]. split; [reflexivity|].
+              split; [reflexivity|]. split; [clear -Hmu Hmu1; lia|]. split; [constructor|].
+              intros k evs. exists k. rewrite app_nil_r. apply Hsp.
+           ++ left. exists (sf_payload f), r', (MBet (msg_after m f)), [], rest. cbn [minv mspec mdeliv mmsg].
+              rewrite app_nil_r.
+              split; [exact Hr|]. split; [exact HB|]. split; [reflexivity|]. split; [reflexivity|].
+              split; [reflexivity|]. split; [clear -Hmu Hmu1; lia|]. split; [constructor|].
+              intros k evs. exists (S k). rewrite app_nil_r, Hsp. apply Hsp'.
+           ++ right; left. exists (sf_payload f), r', rest. split; [exact Hr|]. split; [exact HB|].
+              split; [exact Hcp|]. split.
+              { unfold mu in Hmu1. rewrite Hfr, (m_frame _ _ _ _ _ _ _ _ HM) in Hmu1. clear -Hle Hmu1. lia. }
+              intros k evs. exists (S k). rewrite Hsp, Hsp'. reflexivity.
+           ++ right; right. exists d, RInvalidUtf8, r'. split; [exact Hr|]. split; [discriminate|].
+              intros k evs. rewrite Hsp, Hsp'. discriminate.
+Qed.
+
+(* reading one message to io.EOF *)
+Lemma read_to_eof_specS c : wf_cfg c -> forall fuel st lg rest r bufs all racc,
+  minv c st lg rest r -> concat (rev_append racc []) = mdeliv st -> (mu r < fuel)%nat ->
+  exists p e r2, read_to_eof fuel bufs all r racc = ((p, e), r2) /\
+   ((e = RIo EEOF /\ exists mid rest', Bnd c None (lg ++ mid) rest' r2 /\
+        (r_compressed r2 = m_comp (mmsg st) \/ spec_control (m_op (mmsg st)) = true) /\
+        (length (flat (r_src r2)) <= length (flat (r_src r)))%nat /\ all_inter mid /\
+        forall k evs, exists k', mspec c k st evs rest =
+           spec_run c k' None (evs ++ mid ++ [mkEv (m_op (mmsg st)) p false (m_comp (mmsg st))]) rest')
+    \/ (e <> RIo EEOF /\ forall k evs, sr_out (mspec c k st evs rest) <> OClean)).
+Proof.
+  intros Hc. induction fuel as [|fuel IH]; intros st lg rest r bufs all racc Hinv Hacc Hmu; [lia|].
+  cbn [read_to_eof]. pose proof (next_buf_pos bufs all) as Hkk.
+  destruct (next_buf bufs all) as [kk bufs']. cbn [fst] in Hkk.
+  destruct (read_stepS c st lg rest r kk Hc Hinv Hkk)
+    as [(d & r' & st' & mid & rest' & Hr & Hinv' & Hdel & Hopq & Hcmq & Hmu' & Hmid & Hsp)
+       |[(d & r' & rest' & Hr & HB & Hcp & Hle & Hsp)|(d & err & r' & Hr & Hne & Hsp)]]; rewrite Hr.
+  - assert (Hacc': concat (rev_append (d :: racc) []) = mdeliv st') by (rewrite concat_rev_cons, Hacc, Hdel; reflexivity).
+    destruct (IH st' (lg ++ mid) rest' r' bufs' all (d :: racc) Hinv' Hacc' ltac:(lia)) as (p & e & r2 & Hrte & Hres).
+    exists p, e, r2. split; [exact Hrte|]. rewrite Hopq, Hcmq in Hres.
+    pose proof (mu_le _ _ Hmu') as Hle'.
+    destruct Hres as [(He & mid2 & rest2 & HB & Hcp & Hle & Hmid2 & Hsp2)|(Hne & Hsp2)].
+    + left. split; [exact He|]. exists (mid ++ mid2), rest2. rewrite app_assoc. split; [exact HB|]. split; [exact Hcp|].
+      split; [clear -Hle Hle'; lia|]. split; [apply Forall_app; split; assumption|]. intros k evs.
+      destruct (Hsp k evs) as (k1 & Heq1). destruct (Hsp2 k1 (evs ++ mid)) as (k2 & Heq2).
+      exists k2. rewrite Heq1, Heq2, <- !app_assoc. reflexivity.
+    + right. split; [exact Hne|]. intros k evs.
+      destruct (Hsp k evs) as (k1 & Heq1). rewrite Heq1. apply Hsp2.
+  - do 3 eexists. split; [reflexivity|]. left. split; [reflexivity|]. exists [], rest'. rewrite app_nil_r.
+    split; [exact HB|]. split; [exact Hcp|]. split; [exact Hle|]. split; [constructor|].
+    intros k evs. destruct (Hsp k evs) as (k1 & Heq1). exists k1.
+    rewrite concat_rev_cons, Hacc. exact Heq1.
+  - do 3 eexists. split; [reflexivity|]. right. split; [exact Hne|]. exact Hsp.
+Qed.
